@@ -33,7 +33,8 @@ CHECKS = [
               'the same oracle inside the target.'
               ' Atom maps (none / all / dense partial subsets) are written in molecule and reaction text and must become the atom numbers.'
               ' Every element symbol in four letter cases in six contexts is enumerated (accept exactly the language).'
-              ' Component-start spellings (chirality, marks, maps) are also placed in second and later components.',
+              ' Component-start spellings (chirality, marks, maps) are also placed in second and later components.'
+              ' Every corpus / curated source text is also read by RDKit and converted by the bridge: every label RDKit reads must be read by the library with the same sense. The curated witness list is swept completely on every run.',
          note='Trusted: vf/oracles/smiles_ref.py (reference reader + writer), RDKit; grey-zone strings are only required to '
               'return a well-formed object or raise ValueError. D2 is exhaustive for its alphabet and length bound only.',
          technique='grammar/graph-directed generation + exhaustive token enumeration + atheris coverage-guided fuzzing against a reference reader and RDKit'),
@@ -222,7 +223,8 @@ CHECKS = [
               'atoms from the valence re-derivation); one product per match, input untouched, stereo frame condition, identity '
               'template, unique product numbers, invariance of the product set under renumbering and reactant order.'
               ' Exhaustive reactor mode on a duplicated doubly reactive substrate: only template-named elements may change.'
-              ' With fix_aromatic_rings=False and Kekule inputs no product bond may be aromatic.',
+              ' With fix_aromatic_rings=False and Kekule inputs no product bond may be aromatic.'
+              ' A direct shard applies ten templates to labelled tri- and tetrasubstituted alkenes under several numberings.',
          note='Trusted: the patch model in the check (semantics from the property text); matches themselves are taken from the '
               'library (C07 decides them). Aromatic ring fixing is off for the atom-wise comparison.',
          technique='model-based property-based testing (labelled-graph patch model) with metamorphic renumbering/order relations'),
